@@ -491,3 +491,210 @@ pub fn grammar(ntok: usize, rules: Vec<(&str, bool, Option<Rx>)>) -> Grammar {
 pub fn rule_name(i: usize) -> &'static str {
     RULE_NAMES[i]
 }
+
+// ---------------------------------------------------------------------------------------------
+// PRATT family
+
+#[derive(Clone, Copy, Debug, PartialEq, Eq)]
+pub enum BranchShape {
+    Infix,
+    InfixPair,
+    Prefix,
+    Postfix,
+    Ternary,
+    Call,
+    PrefixTernary,
+}
+
+/// Tokens: 0 = A (atom), 1.. = operator tokens (B, C, D), then L, R.
+/// Every list of 1..=b recursive branches x operator assignment x subset of operator tokens declared
+/// `right` x atom set {A} / {A, L e R}. Rule 0 `s: e;` rule 1 `e`.
+pub fn pratt_family(b: usize, optoks: usize, f: &mut dyn FnMut(&Grammar)) {
+    let ops: Vec<usize> = (1..=optoks).collect();
+    let l = optoks + 1;
+    let r = optoks + 2;
+    let e = || Rx::Ref(1);
+    // all single branches
+    let mut branches: Vec<Rx> = vec![];
+    for &o in &ops {
+        branches.push(cat(vec![e(), tok(o), e()]));
+    }
+    for i in 0..ops.len() {
+        for j in i + 1..ops.len() {
+            branches.push(cat(vec![e(), par(alt(vec![tok(ops[i]), tok(ops[j])])), e()]));
+        }
+    }
+    for &o in &ops {
+        branches.push(cat(vec![tok(o), e()]));
+    }
+    for &o in &ops {
+        branches.push(cat(vec![e(), tok(o)]));
+    }
+    for &o in &ops {
+        for &p in &ops {
+            if o != p {
+                branches.push(cat(vec![e(), tok(o), e(), tok(p), e()]));
+            }
+        }
+    }
+    branches.push(cat(vec![e(), tok(l), e(), tok(r)]));
+    for &o in &ops {
+        for &p in &ops {
+            if o != p {
+                branches.push(cat(vec![tok(o), e(), tok(p), e()]));
+            }
+        }
+    }
+    let nb = branches.len();
+    let mut idx: Vec<usize> = vec![];
+    fn rec(
+        depth: usize,
+        b: usize,
+        nb: usize,
+        idx: &mut Vec<usize>,
+        branches: &[Rx],
+        optoks: usize,
+        l: usize,
+        r: usize,
+        f: &mut dyn FnMut(&Grammar),
+    ) {
+        if !idx.is_empty() {
+            for atoms in 0..2 {
+                let mut alts: Vec<Rx> = idx.iter().map(|i| branches[*i].clone()).collect();
+                alts.push(tok(0));
+                if atoms == 1 {
+                    alts.push(cat(vec![tok(l), Rx::Ref(1), tok(r)]));
+                }
+                for mask in 0..(1u32 << optoks) {
+                    // only tokens that occur
+                    let used: Vec<usize> = (1..=optoks)
+                        .filter(|t| alts.iter().any(|a| a.contains(&|x| *x == Rx::Tok(*t))))
+                        .collect();
+                    let right: Vec<usize> = (1..=optoks).filter(|t| mask & (1 << (t - 1)) != 0).collect();
+                    if right.iter().any(|t| !used.contains(t)) {
+                        continue;
+                    }
+                    let mut g = grammar(
+                        optoks + 3,
+                        vec![("s", false, Some(Rx::Ref(1))), ("e", false, Some(alt(alts.clone())))],
+                    );
+                    g.tokens[l].name = "L".into();
+                    g.tokens[r].name = "R".into();
+                    g.right = right;
+                    f(&g);
+                }
+            }
+        }
+        if depth == b {
+            return;
+        }
+        for i in 0..nb {
+            idx.push(i);
+            rec(depth + 1, b, nb, idx, branches, optoks, l, r, f);
+            idx.pop();
+        }
+    }
+    rec(0, b, nb, &mut idx, &branches, optoks, l, r, f);
+}
+
+// ---------------------------------------------------------------------------------------------
+// NODE / PRED / CHOICE / PARTS families
+
+pub fn node_bases() -> Vec<Grammar> {
+    vec![
+        grammar(3, vec![("s", false, Some(cat(vec![tok(0), rf(1), tok(2)]))), ("x", false, Some(tok(1)))]),
+        grammar(3, vec![("s", false, Some(rf(1))), ("x", false, Some(cat(vec![tok(0), tok(1), tok(2)])))]),
+        grammar(3, vec![("s", false, Some(rf(1))), ("x", false, Some(alt(vec![tok(0), cat(vec![tok(1), tok(2)])])))]),
+        grammar(3, vec![("s", false, Some(rf(1))), ("x", false, Some(cat(vec![tok(0), opt(tok(1)), tok(2)])))]),
+        grammar(3, vec![("s", false, Some(rf(1))), ("x", false, Some(cat(vec![tok(0), star(tok(1)), tok(2)])))]),
+        grammar(3, vec![("s", false, Some(star(rf(1)))), ("x", false, Some(cat(vec![tok(0), par(alt(vec![tok(1), tok(2)]))])))]),
+        grammar(2, vec![("s", false, Some(rf(1))), ("e", false, Some(alt(vec![cat(vec![rf(1), tok(1), rf(1)]), tok(0)])))]),
+        grammar(3, vec![("s", false, Some(cat(vec![rf(1), tok(2)]))), ("x", false, Some(alt(vec![cat(vec![tok(0), rf(1)]), tok(1)])))]),
+    ]
+}
+
+pub fn node_ops() -> Vec<Rx> {
+    vec![
+        Rx::Rename("n".into()),
+        Rx::Elide,
+        Rx::Marker(1),
+        Rx::Marker(2),
+        Rx::Create(Some(1), Some("n".into())),
+        Rx::Create(Some(1), None),
+        Rx::Create(Some(2), Some("m".into())),
+        Rx::Create(None, Some("n".into())),
+        Rx::Create(None, None),
+    ]
+}
+
+/// NODE(k): every placement of <= k node operators into the gaps of the base bodies, each also with the
+/// non-start rule declared elided (`x^:`).
+pub fn node_family(k: usize, bases: &[Grammar]) -> Vec<Grammar> {
+    let mut out = vec![];
+    for b in bases {
+        for g in insert_up_to(b, &node_ops(), k) {
+            let mut e = g.clone();
+            e.rules[1].elided = true;
+            out.push(g);
+            out.push(e);
+        }
+    }
+    out
+}
+
+pub fn pred_ops() -> Vec<Rx> {
+    vec![Rx::Pred(Some(1)), Rx::Pred(None), Rx::Assert(1), Rx::Action(1)]
+}
+
+/// PRED: EBNF(l,u,rules) x every placement of <= k items of {?1, ?t, !1, #1}
+pub fn pred_family(b: &EbnfBound, k: usize) -> Vec<Grammar> {
+    let mut out = vec![];
+    ebnf_all(b, &mut |g| {
+        if g.fully_productive() {
+            for v in insert_up_to(g, &pred_ops(), k) {
+                if v != *g {
+                    out.push(v);
+                }
+            }
+        }
+    });
+    out
+}
+
+/// CHOICE: EBNF shapes with ordered choice enabled that contain exactly one ordered choice, plus every
+/// placement of <= k items of {~, &, !1}
+pub fn choice_family(b: &EbnfBound, k: usize) -> Vec<Grammar> {
+    let mut out = vec![];
+    let mut bb = *b;
+    bb.cfg.choice = true;
+    ebnf_all(&bb, &mut |g| {
+        let mut n = 0;
+        g.walk_all(&mut |_, r| {
+            if matches!(r, Rx::Choice(_)) {
+                n += 1
+            }
+        });
+        if n == 1 && g.fully_productive() {
+            out.extend(insert_up_to(g, &[Rx::Commit, Rx::Return, Rx::Assert(1)], k));
+        }
+    });
+    out
+}
+
+/// PARTS: EBNF grammars with 2..3 rules; every non-empty subset of the non-start rules declared `part`;
+/// additionally variants in which the start rule does not reference the part (unused part).
+pub fn parts_family(b: &EbnfBound) -> Vec<Grammar> {
+    let mut out = vec![];
+    ebnf_all(b, &mut |g| {
+        if g.rules.len() < 2 || !g.fully_productive() {
+            return;
+        }
+        let n = g.rules.len() - 1;
+        for mask in 1..(1u32 << n) {
+            let mut v = g.clone();
+            v.parts = (1..=n).filter(|i| mask & (1 << (i - 1)) != 0).collect();
+            out.push(v);
+        }
+    });
+    out
+}
